@@ -283,16 +283,17 @@ func allMessages(protoFile *protogen.File) func() []*protogen.Message {
 // The return value is a map[string]string where the key is the import path and the value is the import
 // alias to use in the Go code (extracted from the .proto file's go_package option, if present).
 func getAdditionalImports(protoFile *protogen.File, goPackageForFile map[string]string) func(v interface{}) map[string]string {
+	exts := getExtensions(protoFile)
 	return func(v interface{}) map[string]string {
 		paths := make(map[string]string)
 		switch tv := v.(type) {
 		case *protogen.Message:
-			for p, alias := range additionalImportsForType(protoFile.GoImportPath, tv, goPackageForFile) {
+			for p, alias := range additionalImportsForType(protoFile.GoImportPath, tv, exts(tv), goPackageForFile) {
 				paths[p] = alias
 			}
 		case []*protogen.Message:
 			for _, m := range tv {
-				for p, alias := range additionalImportsForType(protoFile.GoImportPath, m, goPackageForFile) {
+				for p, alias := range additionalImportsForType(protoFile.GoImportPath, m, exts(m), goPackageForFile) {
 					paths[p] = alias
 				}
 			}
@@ -302,14 +303,15 @@ func getAdditionalImports(protoFile *protogen.File, goPackageForFile map[string]
 	}
 }
 
-// additionalImportsForType returns a set of import paths referenced by the fields of m that are
-// distinct from the package declared by p.
+// additionalImportsForType returns a set of import paths referenced by the fields of m, and by the
+// proto2 extensions exts of m (the generated code of m handles those too), that are distinct from the
+// package declared by p.
 //
 // The return value is a map[string]string where the key is the import path and the value is the import
 // alias to use in the Go code (extracted from the .proto file's go_package option, if present).
-func additionalImportsForType(p protogen.GoImportPath, m *protogen.Message, goPackageForFile map[string]string) map[string]string {
+func additionalImportsForType(p protogen.GoImportPath, m *protogen.Message, exts []*protogen.Field, goPackageForFile map[string]string) map[string]string {
 	res := map[string]string{}
-	for _, fld := range m.Fields {
+	for _, fld := range append(append([]*protogen.Field{}, m.Fields...), exts...) {
 		if fld.Desc.IsMap() {
 			// the type that may live in another package is the one of the entry's value
 			fld = fld.Message.Fields[1]
